@@ -294,11 +294,17 @@ class ACSE:
 
         return isinstance(primitive, abort_classes[abort_type])
 
-    def is_release_requested(self) -> bool:
-        """Return ``True`` if an A-RELEASE request has been received."""
+    def is_release_requested(self, consume: bool = True) -> bool:
+        """Return ``True`` if an A-RELEASE request has been received.
+
+        If `consume` is ``False`` then the A-RELEASE indication is left for
+        whoever is going to send the A-RELEASE response.
+        """
         primitive = self.dul.peek_next_pdu()
         if isinstance(primitive, A_RELEASE) and primitive.result is None:
-            _ = self.dul.receive_pdu(wait=False)
+            if consume:
+                _ = self.dul.receive_pdu(wait=False)
+
             return True
 
         return False
